@@ -87,13 +87,19 @@ impl Formatter {
     }
 
     fn format_into_buf(&self, input: &str, buf: &mut String, options: FileOptions) {
+        #[cfg(pasfmt_verif)]
+        crate::verif_hooks::yield_point("format_before_lex");
         let mut tokens = self.lexer.lex(input);
+        #[cfg(pasfmt_verif)]
+        crate::verif_hooks::yield_point("format_after_lex");
         let mut cursors = self.reconstructor.process_cursors(options.cursors, &tokens);
 
         for token_consolidator in self.token_consolidators.iter() {
             token_consolidator.consolidate(&mut tokens);
         }
         let (mut lines, mut tokens) = self.logical_line_parser.parse(tokens);
+        #[cfg(pasfmt_verif)]
+        crate::verif_hooks::yield_point("format_after_parse");
         for line_consolidator in self.post_parse_consolidators.iter() {
             line_consolidator.consolidate((&mut tokens, &mut lines));
         }
@@ -128,8 +134,12 @@ impl Formatter {
 
         let mut formatted_tokens = FormattedTokens::new_from_tokens(&mut tokens, &ignored_tokens);
         for formatter in self.logical_line_formatters.iter() {
+            #[cfg(pasfmt_verif)]
+            crate::verif_hooks::yield_point("format_before_line_formatter");
             formatter.format(&mut formatted_tokens, &lines);
         }
+        #[cfg(pasfmt_verif)]
+        crate::verif_hooks::yield_point("format_before_reconstruct");
 
         cursors.relocate_cursors(&formatted_tokens);
 
